@@ -26,7 +26,8 @@ Definition entries : list string := entry_global :: entries_detailed.
 
 (* fields of Circuit that C03's frame speaks about and that a stage may change (for movable cells only) *)
 Definition placement_fields : list string := ["cellX_"; "cellY_"; "cellOrientation_"].
-(* bookkeeping flags of the Circuit, invisible through the public getters the frame is stated on *)
+(* bookkeeping flags of the Circuit: PUBLIC data members (coloquinte.hpp, with isInUse_), not returned by the getters the
+   frame is stated on; frame_ok deliberately excludes them (an explicit exclusion, not a proof that they are unobservable) *)
 Definition flag_fields : list string := ["hasCellSizeUpdate_"; "hasNetUpdate_"].
 
 (* the writes that coq/Api.v models (export_glob, export_leg, export_det) *)
